@@ -140,6 +140,7 @@ class Flwdir(object):
             "idxs_ds": self.idxs_ds,
             "idxs_seq": self._seq,
             "idxs_pit": self._pit,
+            "area": self._cached.get("area", None),
         }
 
     @property
